@@ -283,7 +283,7 @@ def main():
         }],
         "checks": checks,
         "not_applicable": [{"property_id": p, "reason": NOT_YET} for p in ALL if p not in CLAIMED],
-        "notes": "Every check: ./check <id> --tier quick|thorough ; exit 0 / exit 1 + VIOLATION line / exit 2 = machinery broken. See DESIGN.md.",
+        "notes": "Every check: ./check <id> --tier quick|thorough ; exit 0 (KNOWN-FINDING lines possible) / exit 1 + VIOLATION line (a broken proof, correspondence or harness is a VIOLATION ending in no-failing-input-found). See DESIGN.md section 9.",
     }
     json.dump(man, open(os.path.join(VERIF, "MANIFEST.json"), "w"), indent=1)
 
